@@ -36,6 +36,7 @@ def budget(tier):
 def strategy_(draw, tier):
     g, case = draw(idx.indexed_file(tier))
     case.pop("_twice")
+    case["via"] = draw(st.sampled_from(["api", "api", "cli"]))
     return case
 
 
@@ -50,7 +51,7 @@ def run_case(case):
     lines = case["gaf"]
     with core.workdir() as d:
         gaf_path, table = idx.materialize(d, case)
-        r = idx.build_index(gaf_path, d + "/g.gfa", d + "/out.gvi")
+        r = idx.build_index(gaf_path, d + "/g.gfa", d + "/out.gvi", via=case.get("via", "api"))
         core.check(r[0] == "ok", "index failed: %s", r)
         with open(d + "/out.gvi", "rb") as f:
             ind = pickle.load(f)
@@ -97,7 +98,7 @@ def run_case(case):
                     core.check(n in seen_nodes, "node %s is traversed by records %s but has no index entry", n, sorted(e))
         finally:
             reader.close()
-    cl = idx.file_classes(case, table)
+    cl = idx.file_classes(case, table) + ["via:" + case.get("via", "api")]
     multi = any(len(e) >= 2 for e in expected.values())
     none = any(len(e) == 0 for e in expected.values())
     nontrivial = len(lines) >= 2 and multi and none
